@@ -2248,3 +2248,142 @@ Section Final.
       + exact (context_lines string String.eqb _ _ hs Hh).
   Qed.
 End Final.
+
+(* ================================================================== the inner contracts as booleans *)
+Section BoolForms.
+  Variable T : Type.
+  Variable eqb : T -> T -> bool.
+  Hypothesis eqb_spec : forall x y, eqb x y = true <-> x = y.
+  Variables a b : list T.
+
+  Lemma list_eqb_same : forall l : list T, list_eqb eqb l l = true.
+  Proof.
+    induction l as [|x l IH]; [reflexivity|]. cbn [list_eqb].
+    rewrite (proj2 (eqb_spec x x) eq_refl), IH. reflexivity.
+  Qed.
+
+  Lemma list_eqb_eq (l l' : list T) : l = l' -> list_eqb eqb l l' = true.
+  Proof. intros <-. apply list_eqb_same. Qed.
+
+  Ltac bools :=
+    repeat (apply andb_true_intro; split);
+    try (apply Nat.leb_le; lia); try (apply Nat.eqb_eq; lia); try (apply Nat.ltb_lt; lia).
+
+  Theorem flm_okb_holds alo ahi blo bhi :
+    alo <= ahi <= List.length a -> blo <= bhi <= List.length b ->
+    flm_okb eqb a b alo ahi blo bhi (find_longest_match eqb a b alo ahi blo bhi) = true.
+  Proof.
+    intros Ha Hb. destruct (flm_sound T eqb a b eqb_spec alo ahi blo bhi Ha Hb) as (H1 & H2 & H3 & H4 & H5).
+    unfold flm_okb. bools. apply list_eqb_eq. exact H5.
+  Qed.
+
+  Lemma common_len_spec : forall x y : list T,
+    common_len eqb x y <= List.length x /\ common_len eqb x y <= List.length y
+    /\ run eqb x y 0 0 (common_len eqb x y).
+  Proof.
+    induction x as [|u x IH]; intros y.
+    - cbn. repeat split; try lia. apply run_0.
+    - destruct y as [|v y]; [cbn; repeat split; try lia; apply run_0|].
+      cbn [common_len]. destruct (eqb u v) eqn:E.
+      + destruct (IH y) as (I1 & I2 & I3). cbn [List.length]. repeat split; try lia.
+        intros t Ht. destruct t as [|t]; [unfold eqat; cbn; exact E|].
+        specialize (I3 t ltac:(lia)). exact I3.
+      + cbn [List.length]. repeat split; try lia. apply run_0.
+  Qed.
+
+  Theorem flm_maxb_holds alo ahi blo bhi :
+    alo <= ahi <= List.length a -> blo <= bhi <= List.length b ->
+    flm_maxb eqb a b alo ahi blo bhi (find_longest_match eqb a b alo ahi blo bhi) = true.
+  Proof.
+    intros Ha Hb. unfold flm_maxb.
+    apply forallb_forall. intros i Hi. apply in_seq in Hi.
+    apply forallb_forall. intros j Hj. apply in_seq in Hj.
+    apply Nat.leb_le.
+    destruct (common_len_spec (sub a i (ahi - i)) (sub b j (bhi - j))) as (C1 & C2 & C3).
+    rewrite sub_length in C1 by lia. rewrite sub_length in C2 by lia.
+    apply run_of_sub in C3. rewrite !Nat.add_0_r in C3.
+    apply (flm_maximal T eqb a b alo ahi blo bhi Ha Hb i j); try lia. exact C3.
+  Qed.
+
+  Lemma mono_blocks_okb : forall l alo blo,
+    mono_blocks T a b alo blo l (List.length a) (List.length b) ->
+    blocks_okb eqb a b alo blo (l ++ [(List.length a, List.length b, 0)]) = true.
+  Proof.
+    induction l as [|m l IH]; intros alo blo H.
+    - cbn [mono_blocks] in H. cbn [app blocks_okb]. unfold mA, mB, mSize. cbn [fst snd]. bools.
+    - cbn [mono_blocks] in H. destruct H as (H1 & H2 & H3 & H4 & H5 & H6 & H7).
+      specialize (IH _ _ H7). cbn [app].
+      destruct (l ++ [(List.length a, List.length b, 0)]) as [|x r] eqn:E; [destruct l; discriminate E|].
+      change (blocks_okb eqb a b alo blo (m :: x :: r)) with
+        ((alo <=? mA m) && (blo <=? mB m) && (0 <? mSize m)
+         && (mA m + mSize m <=? List.length a) && (mB m + mSize m <=? List.length b)
+         && list_eqb eqb (sub a (mA m) (mSize m)) (sub b (mB m) (mSize m))
+         && blocks_okb eqb a b (mA m + mSize m) (mB m + mSize m) (x :: r)).
+      bools; [apply list_eqb_eq; exact H6 | exact IH].
+  Qed.
+
+  Theorem blocks_okb_holds :
+    exists ms, matching_blocks eqb a b = Some ms /\ blocks_okb eqb a b 0 0 ms = true.
+  Proof.
+    destruct (matching_blocks_sound T eqb eqb_spec a b) as (l & E & H).
+    eexists. split; [exact E | apply mono_blocks_okb; exact H].
+  Qed.
+
+  Lemma tiles_spec_okb : forall cs i j I J,
+    tiles_spec T a b i j cs I J -> tiles_okb eqb a b i j cs I J = true.
+  Proof.
+    induction cs as [|c r IH]; intros i j I J H; cbn [tiles_spec tiles_okb] in *.
+    - bools.
+    - destruct H as (H1 & H2 & (O1 & O2 & O3) & H4). specialize (IH _ _ _ _ H4).
+      unfold op_okb. destruct (oTag c); bools; try exact IH.
+      apply list_eqb_eq. apply O3.
+  Qed.
+
+  Theorem tiles_okb_holds :
+    exists cs, get_opcodes eqb a b = Some cs
+               /\ tiles_okb eqb a b 0 0 cs (List.length a) (List.length b) = true.
+  Proof.
+    destruct (opcodes_tile T eqb eqb_spec a b) as (cs & E & H).
+    exists cs. split; [exact E | apply tiles_spec_okb; exact H].
+  Qed.
+End BoolForms.
+
+(* ================================================================== makeUnifiedDiff on line lists *)
+Section FinalLists.
+  Local Open Scope string_scope.
+
+  Lemma list_eqb_string_iff : forall l l' : list string, list_eqb String.eqb l l' = true <-> l = l'.
+  Proof.
+    induction l as [|x l IH]; intros [|y l']; cbn [list_eqb]; split; intro H;
+      try reflexivity; try discriminate H.
+    - apply andb_prop in H. destruct H as [H1 H2]. apply String.eqb_eq in H1. apply IH in H2. congruence.
+    - injection H as -> ->. rewrite String.eqb_refl. apply IH. reflexivity.
+  Qed.
+
+  Theorem diff_lines_spec (a b : list string) :
+    Forall proper a -> Forall proper b ->
+    exists d, diff_lines a b = Some d
+      /\ spec_empty_iff_lines a b d = true
+      /\ (d <> "" ->
+          exists hs, parse_unified (nls ++ d) = Some hs /\ hs <> []
+                     /\ spec_patch_lines a b hs = true /\ spec_headers hs = true /\ spec_context hs = true).
+  Proof.
+    intros Pa Pb. unfold diff_lines.
+    destruct (hunks String.eqb a b) as [hs|] eqn:Hh; [|exfalso; exact (hunks_total string String.eqb a b Hh)].
+    exists (render_unified hs). split; [reflexivity|].
+    assert (Hn := hunks_nil_iff string String.eqb string_eqb_spec a b hs Hh).
+    split.
+    - unfold spec_empty_iff_lines.
+      destruct (String.eqb_spec (render_unified hs) "") as [E|E].
+      + apply render_unified_nil_iff in E. apply Hn in E. subst b. rewrite list_eqb_refl. reflexivity.
+      + destruct (list_eqb String.eqb a b) eqn:El; [|reflexivity].
+        apply list_eqb_string_iff in El. apply Hn in El. subst hs. exfalso. apply E. reflexivity.
+    - intro Hne. assert (Hnil : hs <> []) by (intro E; apply Hne; subst hs; reflexivity).
+      exists hs. split; [exact (parse_render hs Hnil (hunks_proper a b hs Pa Pb Hh))|].
+      split; [exact Hnil|]. split; [|split].
+      + unfold spec_patch_lines. rewrite (patch_lines string String.eqb string_eqb_spec a b hs Hh).
+        apply list_eqb_refl.
+      + exact (headers_lines string String.eqb string_eqb_spec a b hs Hh).
+      + exact (context_lines string String.eqb a b hs Hh).
+  Qed.
+End FinalLists.
